@@ -35,6 +35,15 @@ TraceInit ==
 ActionOf(e) ==
     CASE e.op = "New" -> /\ pool' = Append(pool, ObjOfCores(e.cores))
                          /\ hist' = Append(hist, NewEv(e.cores))
+      \* objects created outside the model (float data): only dims are known, the value is opaque
+      [] e.op = "NewOpaque" -> /\ pool' = Append(pool, OpaqueObj(e.rd, e.cd, e.r0, e.rN, [t \in 1..(Len(e.rd) + 1) |-> UNK]))
+                               /\ hist' = Append(hist, [op |-> "New", new |-> <<>>, mod |-> <<>>])
+      \* a solver / integrator / data-driven routine: documented to return new objects (or an argument itself,
+      \* "same" > 0) and to change none of its arguments: no target, results opaque with the observed dims
+      [] e.op = "Routine" ->
+            Step([op |-> "Routine", name |-> e.name, args |-> e.args],
+                 [k \in 1..Len(e.fresh) |-> OpaqueObj(e.fresh[k].rd, e.fresh[k].cd, e.fresh[k].r0, e.fresh[k].rN,
+                                                      [t \in 1..(Len(e.fresh[k].rd) + 1) |-> UNK])], <<>>)
       [] e.op = "Full" -> Full(e.a)
       [] e.op = "Matricize" -> Matricize(e.a)
       [] e.op = "Elements" -> Elements(e.a)
@@ -105,6 +114,7 @@ FirstBad ==
                   IN  ObjBad(i)
 
 ArgsOk(e) ==
+    /\ ("args" \in DOMAIN e => \A k \in 1..Len(e.args) : e.args[k] \in 1..Len(pool))
     /\ ("a" \in DOMAIN e => e.a \in 1..Len(pool))
     /\ ("b" \in DOMAIN e => e.b \in 1..Len(pool))
     /\ ("x" \in DOMAIN e => e.x \in 1..Len(pool))
